@@ -118,12 +118,13 @@ Proof. intros X A Hs; exact (krylov_step X A Hs). Qed.
    giving cg_on_lists_exact_after_n_steps with no abstract premise left *)
 
 (* -------------------------------------------- CG on the normal equations *)
-(* residual |b - A x|^2 never increases (any A with adjoint, any b, start, budget) *)
+(* residual |b - A x|^2 never increases (any A with adjoint, any b, start, budget, and any value of
+   the relative stopping constant eps2 = np.finfo(float).eps ** 2) *)
 Theorem cgn_residual_nonincreasing :
-  forall (X Y : IPS) (A : LinOp X Y) (b : Y) (x : X) (n : nat),
+  forall (X Y : IPS) (A : LinOp X Y) (eps2 : R) (b : Y) (x : X) (n : nat),
   nonincr (fun s => nsq (b -' A (n_x X Y s)))
-          (cgn_init X Y inner vplus smul A (adj A) b x)
-          (cgn_run X Y vplus smul inner vplus smul inner A (adj A) b x n).
+          (cgn_init X Y inner vplus smul A (adj A) eps2 b x)
+          (cgn_run X Y vplus smul inner vplus smul inner A (adj A) eps2 b x n).
 Proof. exact cgn_residual_all. Qed.
 Print Assumptions cgn_residual_nonincreasing.
 
